@@ -23,7 +23,8 @@
     - "taken from the first || level that has any": [lowest];  inside a word the same rule is
       applied to the levels of the pieces ([wproper]) -- two tiers, as the README describes for
       [--option=(primary || secondary)];
-    - "extend the typed prefix": [String.prefix p candidate]; literals get one trailing space;
+    - "extend the typed prefix": [String.prefix p candidate], where the candidate of a literal
+      is its text followed by one space (what is offered is what has to extend the typed word);
     - "bash's own stripping of the typed prefix up to its last word-break character": [strip].
 
     Two deliberate slacks (DESIGN 6, C01) keep the oracle from demanding more than the text says:
@@ -265,7 +266,7 @@ Definition matched (en : env) (e : expr) (ws : list string) : bool :=
 (** Candidates an expected item contributes for the typed word [p] (before level selection). *)
 Definition item_cands (en : env) (a : leaf) (p : string) : list (N * string) :=
   match a with
-  | LLit t _ l => if String.prefix p t then [(l, append t " ")] else []
+  | LLit t _ l => if String.prefix p (append t " ") then [(l, append t " ")] else []
   | LCmd c l => map (fun o => (l, o)) (filter (String.prefix p) (candidates en c))
   | LAny => []
   | LSub x l => map (fun o => (l, o)) (wproper en x p)
